@@ -4,6 +4,7 @@ import random as _random
 
 from . import refmodel as ref
 from . import wl_assemble
+from . import wl_cli
 from .core import Violation
 from .engine_k import Seams, SimRandom, bind, bootstrap
 
@@ -17,17 +18,17 @@ MIN_BUDGET = 60
 MIN_WALL = 240.0
 
 RULE = (
-    "one evaluation = one simulated run of one of four sub-scenarios (sweep with recording stub for 1..200 SNVs; sweep inside the real sampler; "
+    "one evaluation = one simulated run of one of five sub-scenarios (`mchap assemble --mcmc-fix-homozygous` end to end on files written for the run; sweep with recording stub for 1..200 SNVs; sweep inside the real sampler; "
     "random_breaks under scripted / tape-driven draw policies; DenovoMCMC.fit with homozygous-site fixing); "
     "distinct_nontrivial = distinct (sub-scenario, ploidy, number of SNVs, shuffle order hash | (breaks, n, result) | (threshold bucket, fixed-column pattern, trace hash))"
 )
 FAULT_KEYS = ["shuffle", "long_locus", "policy_first", "policy_last", "policy_adjacent", "policy_tape", "adversarial_choice", "row_permute"]
 PROBE_KEYS = ["sweep_over_256", "impossible_breaks_refused", "saturated_posterior_at_threshold_1", "sweeps_checked", "sweep_over_127", "partitions_checked", "max_breaks", "fixing_checked", "all_fixed", "some_fixed", "none_fixed",
-              "threshold_near_skip", "fixed_multiallelic"]
+              "threshold_near_skip", "fixed_multiallelic", "cli_fixing_checked", "cli_some_fixed", "cli_all_fixed", "cli_none_fixed"]
 OPTIONAL_PROBES = {"quick": ("threshold_near_skip",), "thorough": ()}
 COMPONENTS = {
     "real": ["mchap.assemble.mutation.compound_step", "mchap.assemble.structural.random_breaks", "mchap.assemble.mcmc.DenovoMCMC.fit/_mcmc/_homozygosity_probabilities/_denovo_assembler",
-             "mchap.assemble.snpcalling.snp_posterior", "all executed as plain Python (NUMBA_DISABLE_JIT=1)"],
+             "mchap.assemble.snpcalling.snp_posterior", "cli sub-scenario: mchap.application.assemble.program end to end (argument parsing, pysam, read encoding, DenovoMCMC construction), single core", "all executed as plain Python (NUMBA_DISABLE_JIT=1)"],
     "stub": ["mutation.base_step replaced by a pure recorder in the `long` sub-scenario only (sweep accounting for 1..200 SNVs)",
              "numpy.random.* and random_choice (tape / scripted policies)"],
 }
@@ -43,6 +44,10 @@ def prepare(tier):
 
 
 def gen_config(rng, tier, index=0):
+    if rng.random() < 0.04:
+        cfg = wl_cli.gen_assemble_config(rng, tier)
+        cfg["kind"] = "cli"
+        return cfg
     kind = rng.choice(["long", "long", "sampler", "breaks", "breaks", "fix", "fix"])
     if kind == "long":
         n = rng.choice([1, 2, 7, 50, 100, 126, 127, 128, 129, 140, 160, 200, rng.randint(1, 200), 255, 256, 257, 300, 511, 512, 513, 700, rng.randint(200, 1100)])
@@ -96,6 +101,8 @@ def execute(ctx):
             ctx.key("sampler", s["ploidy"], s["n_base"], tuple(s["visits"]))
     elif kind == "breaks":
         run_breaks(ctx)
+    elif kind == "cli":
+        run_cli(ctx)
     else:
         run_fix(ctx)
 
@@ -338,6 +345,68 @@ def run_fix(ctx):
     ctx.key("fix", pl, tuple(n_alleles), round(thr, 3), tuple(sorted(fixed_allele.items())), hash(G.tobytes()) & 0xFFFFFFFF)
 
 
+def run_cli(ctx):
+    """`mchap assemble --mcmc-fix-homozygous t` end to end: for every (locus, sample) model the program fitted, the columns
+    handed to the inner sampler are exactly the SNVs whose independent single-SNV homozygosity posterior (ploidy and
+    inbreeding of that sample as given on the command line) stays below t, and the fixed columns of the trace hold the allele."""
+    m = bootstrap()
+    np = m["np"]
+    cfg = ctx.config
+    thr = 0.999 if cfg["fix_homozygous"] is None else cfg["fix_homozygous"]
+    state = {"ds": None}
+
+    def on_fit(rec):
+        reads, counts = rec["reads"], rec["counts"]
+        n_pos = reads.shape[1] if reads.ndim == 3 else 0
+        if n_pos == 0:
+            ctx.counters.inc("cli_locus_without_snv")
+            return
+        n_alleles = [int(a) for a in rec["model"].n_alleles]
+        pl, F = rec["ploidy"], rec["inbreeding"]
+        counts_l = None if counts is None else [int(c) for c in counts]
+        if len(reads):
+            cols = [[reads[r, j, :].tolist() for r in range(len(reads))] for j in range(n_pos)]
+        else:
+            cols = [[[float("nan")] * max(n_alleles)] for _ in range(n_pos)]
+        fixed_allele = {}
+        for j in range(n_pos):
+            hp, margin = ref.snv_homozygosity(cols[j], counts_l if len(reads) else None, n_alleles[j], pl, F, with_margin=True)
+            for a, p in enumerate(hp):
+                if p == 1.0 and thr == 1.0 and margin < -45.0:
+                    fixed_allele[j] = a
+                    continue
+                if abs(p - thr) < 1e-9:
+                    ctx.counters.inc("threshold_near_skip")
+                    return
+                if p >= thr:
+                    fixed_allele[j] = a
+        het = [j for j in range(n_pos) if j not in fixed_allele]
+        where = "locus %s, sample %s, --mcmc-fix-homozygous %r, ploidy %d, inbreeding %r" % (rec["locus"], rec["sample"], cfg["fix_homozygous"], pl, F)
+        G = rec["trace"]
+        if not het:
+            if rec["inner"]:
+                raise Violation("fixed_sites", "all sites are fixed by the single-SNV posterior but the sampler was still run (%s)" % where, step=0)
+        else:
+            base = reads if len(reads) else np.full((1, n_pos, max(n_alleles)), np.nan)
+            want = base[:, het]
+            if not rec["inner"]:
+                raise Violation("fixed_sites", "sites %r stay below the threshold but no sampler was run (%s)" % (het, where), step=0)
+            for c in rec["inner"]:
+                same = c["reads"].shape == want.shape and np.array_equal(np.isnan(c["reads"]), np.isnan(want)) and np.array_equal(np.nan_to_num(c["reads"]), np.nan_to_num(want))
+                if not same or c["n_alleles"] != [n_alleles[j] for j in het]:
+                    raise Violation("fixed_sites", "columns handed to the sampler are not the complement of the sites whose single-SNV homozygosity posterior reaches the threshold "
+                                    "(expected variable sites %r of %d; %s)" % (het, n_pos, where), step=0,
+                                    detail={"threshold": thr, "expected_variable": het, "handed_shape": list(c["reads"].shape)})
+        for j, a in fixed_allele.items():
+            if not np.all(G[:, :, :, j] == a):
+                raise Violation("fixed_sites", "fixed site %d does not hold allele %d at every step of the trace (%s)" % (j, a, where), step=0)
+        ctx.counters.inc("cli_fixing_checked")
+        ctx.counters.inc("cli_all_fixed" if not het else ("cli_some_fixed" if fixed_allele else "cli_none_fixed"))
+        ctx.key("cli-fix", pl, tuple(n_alleles), round(thr, 4), tuple(sorted(fixed_allele.items())), round(F, 3))
+
+    wl_cli.run_assemble_cli(ctx, on_fit)
+
+
 def sut_exception_is_violation(e, ctx):
     return True
 
@@ -352,6 +421,8 @@ def shrink_candidates(cfg, violation):
         if c != cfg:
             out.append(c)
 
+    if kind == "cli":
+        return wl_cli.shrink_candidates(cfg)
     if kind == "long":
         if cfg["sweeps"] > 1:
             mod(sweeps=1)
